@@ -26,6 +26,25 @@ def judge_records(sdw, recs):
     return list(zip(good, out))
 
 
+def parallel_by_size(cmds, jobs=14):
+    """the commands spread over several driver processes, heaviest first (a few huge scenarios dominate)"""
+    from concurrent.futures import ThreadPoolExecutor
+    order = sorted(range(len(cmds)), key=lambda i: -len(str(cmds[i])))
+    buckets = [[] for _ in range(min(jobs, len(cmds)))]
+    load = [0] * len(buckets)
+    for i in order:
+        b = load.index(min(load))
+        buckets[b].append(i)
+        load[b] += len(str(cmds[i]))
+    with ThreadPoolExecutor(max_workers=len(buckets)) as ex:
+        res = list(ex.map(lambda b: run_driver([cmds[i] for i in b]), buckets))
+    out = [None] * len(cmds)
+    for b, r in zip(buckets, res):
+        for i, o in zip(b, r):
+            out[i] = o
+    return out
+
+
 def judge_cases(cases, midx):
     """all implementation steps of the cases on which monitor midx is false"""
     failing, judged = [], 0
@@ -36,7 +55,7 @@ def judge_cases(cases, midx):
         if recs:
             cmds.append([3, c["cmd"][1], [r for _, r in recs]])
             index.append((c, recs))
-    outs = run_driver(cmds) if cmds else []
+    outs = parallel_by_size(cmds) if cmds else []
     for (c, recs), verdicts in zip(index, outs):
         if verdicts == [-1]:
             continue
@@ -299,7 +318,11 @@ def explore_part(ctx, spec, outcome, rng):
                              record=[r for r in e["records"] if dyn.has_bad(r)][0]))
             continue
         sdw = scen.sd_wire(sd)
-        mo, verdicts = run_driver([[5, sdw, list(modes), [[r[0], r[1], r[2]] for r in recs]], [3, sdw, recs]])
+        half = len(recs) // 2
+        parts = parallel_by_size([[5, sdw, list(modes), [[r[0], r[1], r[2]] for r in recs[:half]]],
+                                  [5, sdw, list(modes), [[r[0], r[1], r[2]] for r in recs[half:]]],
+                                  [3, sdw, recs[:half]], [3, sdw, recs[half:]]])
+        mo, verdicts = parts[0] + parts[1], parts[2] + parts[3]
         for ri, (r, m, v) in enumerate(zip(recs, mo, verdicts)):
             da = dyn.split_out([2, [r[3], None, r[6], r[7], r[4], r[5]], 0])
             db = dyn.split_out([2, m, 0])
